@@ -185,7 +185,16 @@ func HarnessSelftest() {
 	_ = msg.AttachReader("fü.txt", strings.NewReader("attachment \x00 data"), WithFileDescription("desc"))
 	out := &bytes.Buffer{}
 	nn, werr2 := msg.WriteTo(out)
-	hxNQ("render", out.String()+fmt.Sprint(nn, werr2))
+	// the inner level's boundary is random (only the outermost level takes the
+	// caller's): normalised before the comparison
+	rendered := out.String()
+	if i := strings.Index(rendered, "multipart/alternative;\r\n boundary="); i >= 0 {
+		rest := rendered[i+len("multipart/alternative;\r\n boundary="):]
+		if j := strings.Index(rest, "\r\n"); j > 0 {
+			rendered = strings.ReplaceAll(rendered, rest[:j], "INNER-BOUNDARY")
+		}
+	}
+	hxNQ("render", rendered+fmt.Sprint(nn, werr2))
 	p, perr := EMLToMsgFromString(out.String())
 	if perr == nil {
 		hxN("parsed", fmt.Sprint(len(p.GetParts()), len(p.GetAttachments()), p.GetGenHeader(HeaderSubject)))
